@@ -1,7 +1,8 @@
 ---------------------------- MODULE TcpSenderMC ----------------------------
 (* Closed system for exhaustive checking of TcpSender with EXACT RATIONALS <<num, den>> (den > 0, lowest     *)
 (* terms): an environment that delivers new ACKs (advancing by 1..MaxK segments, RTT samples from Rtts),     *)
-(* duplicate ACKs and timer expiries for any segment sent so far, interleaved with the sender's own Send,    *)
+(* duplicate ACKs and timer expiries for any segment sent so far, interleaved with the sender's own Send    *)
+(* and (AppLimited) with the application handing over its data chunk by chunk,                              *)
 (* from several initial cwnd / ssthresh values.  Every clause of C17 is its own formula, stated over the     *)
 (* variables with the rational operators (not through the actions of TcpSender).  Every complete ACK history *)
 (* is emitted as a scenario for the real sender.                                                             *)
@@ -12,6 +13,8 @@ CONSTANTS MaxEv,     \* ACK / timer events per history
           MaxK,      \* a new ACK advances by 1..MaxK segments
           M,         \* the MSS in bytes
           Eager,     \* TRUE: the sender sends whenever it may (as an implementation would); FALSE: any time
+          AppLimited,\* TRUE: the application hands its data over in chunks of 1..2 MSS at arbitrary moments (EnvAppData);
+                     \* FALSE: all MaxSeg segments are buffered from the start
           Tier
 VARIABLES hist,      \* the ACK history (inputs): [op |-> "A"/"D"/"T", k, rn, rd, seq]
           nev, nca,
@@ -53,18 +56,24 @@ Init ==
   /\ \E s \in Starts :
        InitWith([cc |-> IF Tier = "cubic" THEN "cubic" ELSE "reno", mss |-> M, size |-> 0, cw0 |-> s[1], ss0 |-> s[2]],
                 RN(s[1] * M), RN(s[2] * M), RN(1), RN(0), RN(2),
-                IF Tier = "cubic" THEN CubZero ELSE [x |-> 0], RN(0))
+                IF Tier = "cubic" THEN CubZero ELSE [x |-> 0], RN(0),
+                IF AppLimited THEN 0 ELSE MaxSeg * M)
   /\ hist = <<>> /\ nev = 0 /\ nca = 0 /\ sample = RN(0) /\ newlog = <<>>
 
 Variants == IF Tier = "cubic" THEN {FALSE} ELSE BOOLEAN
-MaySend == ns < MaxSeg * M /\ WindowOpen(ns + M)
+MaySend == WindowOpen
 Quiet == ~Eager \/ ~MaySend
 Ev(op, k, r, seq) == /\ hist' = Append(hist, [op |-> op, k |-> k, rn |-> r[1], rd |-> r[2], seq |-> seq])
                      /\ nev' = nev + 1
 
-DoSend == /\ ns < MaxSeg * M /\ Send(ns + M)
+DoSend == /\ Send
           /\ newlog' = Append(newlog, ns)
           /\ UNCHANGED <<hist, nev, nca, sample>>
+\* more application data, at any moment: also while ACKs, duplicates and timeouts change the window
+EnvAppData == /\ AppLimited /\ buf < MaxSeg * M
+              /\ \E k \in 1..2 : buf + k * M <= MaxSeg * M /\ AppData(buf + k * M)
+                                 /\ hist' = Append(hist, [op |-> "P", k |-> k, rn |-> 0, rd |-> 1, seq |-> -1])
+              /\ UNCHANGED <<nev, nca, sample, newlog>>
 EnvNewAck ==
   /\ nev < MaxEv /\ Quiet
   /\ \E k \in 1..MaxK, r \in Rtts :
@@ -94,7 +103,7 @@ EnvTimeout ==
 EnvTick == /\ Tier = "cubic" /\ nev < MaxEv /\ Quiet /\ RLe(now, RN(2))
            /\ TickTo(RPlus(now, <<3, 2>>))
            /\ UNCHANGED <<hist, nev, nca, sample, newlog>>
-Next == DoSend \/ EnvNewAck \/ EnvDupAck \/ EnvTimeout \/ EnvTick
+Next == DoSend \/ EnvAppData \/ EnvNewAck \/ EnvDupAck \/ EnvTimeout \/ EnvTick
 Spec == Init /\ [][Next]_vars
 
 Terminal == nev = MaxEv /\ Quiet
@@ -108,7 +117,7 @@ SendStep == ns' > ns
 Half(c) == RMax(RN(2 * M), RDiv(c, 2))
 
 \* the guard, at every send; and its consequence: unacknowledged data never exceeds the window when sending
-WindowRespected == [][SendStep => /\ ns' = ns + M /\ ns + M <= buf'
+WindowRespected == [][SendStep => /\ ns' = ns + M /\ ns + M <= buf /\ buf' = buf
                                   /\ RLe(RN(ns + M - la), cwnd)
                                   /\ RLe(RN(ns' - la'), cwnd')]_vars
 CwndAtLeastMSS == RLe(RN(M), cwnd)
